@@ -33,25 +33,25 @@ def observed_letters(fn):
     return out
 
 
-def windows(T: LM.TokAutomaton, m: LM.LexModel, K, letters):
-    """Exact set of abstract windows (tuples over letters + '.') of the last <=3 characters of full-length K tokens."""
+def windows(T: LM.TokAutomaton, m: LM.LexModel, letters):
+    """Exact sets of abstract windows (tuples over letters + '.') of the last <=3 characters of the full-length tokens of every class."""
     a = m.alpha
-    sym_letter = {}
-    for s in range(a.n):
-        sym_letter[s] = "."
+    sym_letter = {s: "." for s in range(a.n)}
     for ch in letters:
         sym_letter[a.of_char(ch)] = ch
-    out = set()
+    succ = {}
+    for i in range(len(T.keys)):
+        succ[i] = sorted({(T.trans[(i, s)], sym_letter[s]) for s in range(a.n)})
+    out = {}
     seen = {(0, ())}
     dq = deque(seen)
     while dq:
         i, w = dq.popleft()
         o = T.outcome[i]
-        if o["kind"] == "regex" and o["label"] == K and o["full"]:
-            out.add(w)
-        for s in range(a.n):
-            j = T.trans[(i, s)]
-            w2 = (w + (sym_letter[s],))[-WINDOW:]
+        if o["kind"] == "regex" and o["full"]:
+            out.setdefault(o["label"], set()).add(w)
+        for j, letter in succ[i]:
+            w2 = (w + (letter,))[-WINDOW:]
             if (j, w2) not in seen:
                 seen.add((j, w2))
                 dq.append((j, w2))
@@ -233,10 +233,11 @@ def analyse(m, T):
     tables = {k: v for k, v in m.t.parser_sets.items()}
     classes = sorted(set().union(*(m.t.parser_sets.get(n, set()) for n in ("_INT_CONST", "_FLOAT_CONST", "_CHAR_CONST"))))
     results, escapes = {}, []
+    allw = windows(T, m, letters | set("uUlLfF"))
     for K in classes:
         if not any(n == K for n, _, _ in m.rules):
             continue
-        for w in sorted(windows(T, m, K, letters | set("uUlLfF"))):
+        for w in sorted(allw.get(K, ())):
             ev = Evaluator(fn, tables, K, w)
             try:
                 r = ev.run()
